@@ -21,4 +21,5 @@ for idx in range(start, start + count):
         if c not in seen or verbose:
             print(f"idx={idx} {c}: {v['detail']}")
         seen.setdefault(c, []).append(idx)
-print({c: (len(v), v[:5]) for c, v in seen.items()})
+sys.unraisablehook = lambda *a: None
+print("SUMMARY", {c: (len(v), v[:5]) for c, v in seen.items()})
